@@ -58,7 +58,7 @@ BaseKN == IF Quick THEN {<<3, 5>>} ELSE {<<1, 1>>, <<3, 5>>, <<2, 4>>}
 BaseMaxSegs(size) == IF size <= 300 THEN {16, 131072} ELSE {1024, 131072}
 
 Base(size, kn, m) == [cid |-> "A", size |-> size, variant |-> "", secret |-> "a", k |-> kn[1], N |-> kn[2], maxseg |-> m,
-                      source |-> "Data", pattern |-> <<1>>, encchunk |-> 0]
+                      source |-> "Data", pattern |-> <<1>>, encchunk |-> 0, fault |-> FALSE]
 Bases == {Base(z, kn, m) : z \in BaseSizes \cup LitSizes, kn \in BaseKN, m \in {16, 1024, 131072}}
 Wanted(u) == IF IsLit(u.size) THEN u.maxseg = 16 ELSE u.maxseg \in BaseMaxSegs(u.size)
 
@@ -73,9 +73,12 @@ VarKN(u) == {[u EXCEPT !.k = kn[1], !.N = kn[2]] : kn \in {<<u.k, u.N>>, <<u.k +
 VarSeg(u) == {[u EXCEPT !.maxseg = m] : m \in {u.maxseg, u.maxseg + 1, u.maxseg + u.k, 2 * u.maxseg, u.size, u.size + 1, 1000000}}
 VarData(u) == {[u EXCEPT !.variant = v] : v \in {"", "t", "h"}} \cup {[u EXCEPT !.cid = "B"]}
               \cup {[u EXCEPT !.size = z] : z \in {u.size - 1, u.size + 1} \cap 0..400000}
+\* the environment: one storage server fails a share write in the middle of the upload (the upload still
+\* succeeds on the others).  The cap is a function of the data, the secret and the encoding only.
+VarFault(u) == IF u.N >= 2 /\ ~IsLit(u.size) THEN {[u EXCEPT !.fault = TRUE]} ELSE {}
 Unsecret(u) == [u EXCEPT !.secret = "none"]
 EmptySecret(u) == [u EXCEPT !.secret = "empty"]
-Variations(u) == VarSource(u) \cup VarSecret(u) \cup VarKN(u) \cup VarSeg(u) \cup VarData(u)
+Variations(u) == VarSource(u) \cup VarSecret(u) \cup VarKN(u) \cup VarSeg(u) \cup VarData(u) \cup VarFault(u)
                  \cup {[v EXCEPT !.source = "Chunky", !.pattern = <<1, 2, 3>>] : v \in VarData(u) \cup VarSeg(u)}
 
 MkPair(u, v) == [u1 |-> u, u2 |-> v, rel |-> Relation(u, v), lit1 |-> IsLit(u.size), lit2 |-> IsLit(v.size)]
